@@ -19,7 +19,7 @@ pub static PROP: Prop = Prop {
     rule: "tag run (exhaustive): for each of the 48 sizes a MatrixMap over a tagging Bit type is filled through traverse_mut with (codeword, bit) tags, rendered, and compared module by module with the table produced by the Annex F program (+ ISO 21471 row wrap); value run: codeword vectors (random, single-bit, single-codeword, complement pairs) rendered through new_with_codewords().bitmap() and compared with the reference rendering, codewords() must invert it; non-trivial = every case (each size exercises a different corner / wrap combination; vectors with at least one set bit); distinct by (size, vector)",
     assumptions: &["Annex F placement program transcribed literally; bit 1 of a codeword is its most significant bit"],
     extra: super::no_extra,
-    fuzz_runs: 50000,
+    fuzz_runs: 200000,
 };
 
 /// tagging bit: (codeword + 1, bit + 1), (0, 0) = untouched, (0, 1) = HIGH of the finder / padding
